@@ -211,6 +211,13 @@ impl Property for P {
         let mut bs = Vec::new();
         for _ in 0..12 { bs.extend([152u8]); bs.extend(le(1000)); }
         v.push(Case::Bytes { dk: 24, o: d.clone(), bs });
+        // array dimensions whose product overflows u32 / does not match / contains 0
+        for dims in [vec![0x10000u32, 0x10000], vec![u32::MAX, u32::MAX, 2], vec![1, 1], vec![2], vec![0], vec![1, 0]] {
+            let mut bs = vec![198u8, 1, 0, 0, 0, 7, 0, 0, 0];
+            bs.extend(le(dims.len() as i32));
+            for d in &dims { bs.extend(d.to_le_bytes()); }
+            v.push(Case::Bytes { dk: 24, o: d.clone(), bs });
+        }
         // DateTime extremes, with and without a client offset
         for t in [i64::MAX, i64::MAX - 1, i64::MIN, 0, -1] {
             for off in [0i64, 1, -1, 150, i64::MAX / 2, i64::MIN / 2] {
